@@ -36,7 +36,8 @@ def fallback_class(req):
     level, op, xs = operands(req)
     op = CANON.get(op, op)
     if op == "expt":
-        return "expt-rational" if xs and is_rat(xs[0]) else None
+        # after fix 7762e0a expt has no fall-back with a representable result (theorem T08_2_expt)
+        return None
     if op not in ("+", "-", "*", "/"):
         return None
     if level == "scm" and (len(xs) >= 3 or (op == "-" and len(xs) == 1)):
